@@ -26,9 +26,9 @@ def rt_tasks(tier, kinds, entry='h_rt', classes=None):
     out = []
     for cls in (classes or codec.classes()):
         txt = codec.gen(cls, maxlen=maxlen)
-        j = codec.make_rt_judge(cls, pads, kinds=kinds)
+        j = codec.make_rt_judge(cls, pads)
         out.append(Task('%s.%s' % (cls, entry), txt, entry, j, desc='%s: populate every API member symbolically '
                         '(scalars full width, containers length 0..%d with symbolic contents, size/length fields '
                         'stale), write -> read -> write on an in-memory stream' % (cls, maxlen),
-                        reach=(entry + ':end',), bounds='container length <= %d' % maxlen))
+                        reach=(entry + ':end',), bounds='container length <= %d' % maxlen, kinds=kinds))
     return out
